@@ -103,6 +103,27 @@ def r1_replaceable(ctx):
     newc = calls_norm(up, "PaddingFactory::new")
     okn = bool(newc) and var_name(ou.of_operand(newc[0].args[0])) == "raw_scheme"
     ctx.ob("R19.1", "update_default:stores-the-pushed-scheme", okn, newc[0].site if newc else "", "the stored factory is PaddingFactory::new(raw_scheme)" if okn else "update_default does not parse its argument")
+    # ... in every case: the value written is the factory built from *these* bytes — not, under some "same scheme" test, an
+    # instance installed earlier (equality of the parsed lines is coarser than equality of the bytes the md5 is taken over: a
+    # re-saved scheme file would keep the old md5 installed and be pushed again to every new session)
+    if stores and newc:
+        def alts(t, depth=0):
+            if isinstance(t, tuple) and t and t[0] == "phi" and depth < 4:
+                out = []
+                for a in t[1]:
+                    out += alts(a, depth + 1)
+                return out
+            if isinstance(t, tuple) and t and t[0] == "agg" and len(t) > 3 and t[2] == "Some" and t[3] and depth < 4:
+                return alts(t[3][0], depth + 1)
+            if is_call_term(t, "Arc::<T>::new", "Arc::new", "Arc::from", "::clone") and t[3] and depth < 4 and isinstance(t[3][0], tuple) and t[3][0] and t[3][0][0] == "phi":
+                return alts(t[3][0], depth + 1)
+            return [t]
+        va = alts(stores[0][3])
+        stale = [a for a in va if not any(is_call_term(s_, "PaddingFactory::new") and len(s_) > 2 and s_[2] == newc[0].bb for s_ in subterms(a))]
+        ctx.ob("R19.1", "update_default:what-is-stored-is-built-from-these-bytes", not stale, "src/padding/factory.rs:%s" % stores[0][1],
+               "every value the store can write contains PaddingFactory::new(raw_scheme) of this call" if not stale else
+               "the store can write `%s`, a value that was not built from the bytes just pushed: after a push whose bytes differ but whose lines compare equal, the process keeps the earlier raw bytes and md5, "
+               "announces the old md5 in every later session and is pushed the scheme again each time" % fmt(stale[0])[:80])
 
 
 def r2_new_sessions(ctx):
@@ -278,6 +299,20 @@ def r9_settings_text_codec_siblings(ctx):
     ctx.ob("R19.9", "StringMap:writer-and-reader-agree", ok, (joins[0][0].site if joins else ""), "to_bytes writes `key=value` lines joined by \\n; from_bytes splits into lines and at the first `=`" if ok else
            "StringMap::to_bytes and from_bytes do not describe the same format (separator %s, '=' written: %s, line split: %s, split at first '=': %s, split at last '=': %s): settings and padding schemes do not "
            "survive the trip between the two ends" % (sep, has_eq, by_lines, first_eq, last_eq))
+    # the reader tolerates blanks around `=` (`stop = 8`, `1 = 100-400`): key and value are each trimmed *after* the split, so a
+    # scheme laid out that way has the key `stop`, not `stop ` — otherwise a valid pushed scheme counts as unparsable
+    ins = [(c, o_) for c, o_ in fcs if (c.norm or "").endswith(("HashMap::insert", "StringMap::insert", "BTreeMap::insert")) and len(c.args) > 2]
+    if ins:
+        c, o_ = ins[0]
+        def trimmed_after_split(t):
+            return any(is_call_term(s_, "str::trim", "::trim") and any(isinstance(x, tuple) and x and x[0] == "call" and x[1].split("::")[-1] in ("split_once", "splitn", "split", "split_at") for x in subterms(s_[3][0]))
+                       for s_ in subterms(t) if isinstance(s_, tuple) and s_ and s_[0] == "call" and s_[3])
+        kt, vt = trimmed_after_split(o_.of_operand(c.args[1])), trimmed_after_split(o_.of_operand(c.args[2]))
+        ctx.ob("R19.9", "StringMap:reader-trims-key-and-value-separately", kt and vt, c.site, "key and value are trimmed after the split at `=`" if kt and vt else
+               "from_bytes stores the %s as split, without trimming it on its own: a scheme written `stop = 8` yields the key `stop ` (or the value ` 8`), PaddingFactory::new reports a missing/invalid stop and the "
+               "client treats a valid push as unparsable — the session keeps the old scheme and every later session is pushed again" % ("key" if not kt else "value"))
+    else:
+        ctx.missing("R19.9", "insertion of the parsed key/value in StringMap::from_bytes")
 
 
 def r8_announced_md5_is_the_sessions_own(ctx):
@@ -361,6 +396,7 @@ def run(ctx):
     C10.r8_version_independent_of_padding(ctx)   # and conversely: the push does not depend on the protocol version the client announced
     C05.r3_role(ctx)      # what gates shaping besides the packet index is a per-role constant (no sticky per-session latch)
     C05.r2_stop(ctx)      # stop() and the sizes come from the scheme currently installed in the session
+    C05.r1_index_origins(ctx)    # the index a packet is shaped under is the session's real packet number (one fetch_add per write): after a push with a larger stop, numbering does not resume from a stale count
     r1_replaceable(ctx)
     r2_new_sessions(ctx)
     r3_server_push(ctx)
